@@ -271,3 +271,4 @@ PROPS["C13"]["shard"] = {"wtmo": 16}
 
 PROPS["C12"]["kinds"] = PROPS["C12"]["kinds"] + ["c11"]
 PROPS["C17"]["kinds"] = PROPS["C17"]["kinds"] + ["tmo"]
+PROPS["C13"]["kinds"] = PROPS["C13"]["kinds"] + ["tmo"]
